@@ -43,6 +43,25 @@ fn main() {
                 replay = Some(args.get(i).cloned().unwrap_or_else(|| usage()));
             }
             "--no-regress" => regress = false,
+            "--from-artifact" => {
+                // vcheck <ID> --from-artifact <target> <file>: convert a libFuzzer artifact into a replay file and replay it
+                let target = args.get(i + 1).cloned().unwrap_or_else(|| usage());
+                let file = args.get(i + 2).cloned().unwrap_or_else(|| usage());
+                i += 2;
+                let data = std::fs::read(&file).unwrap_or_else(|_| usage());
+                let (aid, section, tape) = vharness::fuzz::split(&target, &data);
+                if aid != id {
+                    eprintln!("artifact of target {} belongs to {}", target, aid);
+                    std::process::exit(2);
+                }
+                let dir = format!("{}/replays/{}", vharness::engine::verif_dir(), id);
+                let _ = std::fs::create_dir_all(&dir);
+                let path = format!("{}/fuzz-{}-{:016x}.json", dir, target, vharness::tape::fnv(&data));
+                let v = serde_json::json!({"property": id, "section": section, "tape": vharness::tape::hex(tape), "index": null,
+                    "signature": "(from libFuzzer artifact)", "detail": "", "case": "", "seed": seed, "tier": "thorough"});
+                std::fs::write(&path, serde_json::to_string_pretty(&v).unwrap()).expect("write replay");
+                replay = Some(path);
+            }
             _ => usage(),
         }
         i += 1;
